@@ -244,6 +244,13 @@ def _impl(tier, seed, search):
     Ra = b.angvec2r(abs(ar), vv)
     close('tr2angvec', lambda: b.tr2angvec(Ra, unit='deg')[0], lambda: b.tr2angvec(Ra)[0] * 180 / math.pi, 1e-9, 180.0)
     close('SO3.angvec', lambda: SO3(Ra).angvec(unit='deg')[0], lambda: SO3(Ra).angvec()[0] * 180 / math.pi, 1e-9, 180.0)
+    # angles of a full turn or more in degrees: still the radian call with a*pi/180 (value for value — getunit, twists, quaternion components)
+    for abig in (400.0, -725.0, 360.0, 1234.5):
+        abr = abig * math.pi / 180
+        close(f'getunit({abig},deg)', lambda: b.getunit(abig, 'deg'), lambda: abr, 1e-12, abs(abr)); close(f'getunit([{abig}],deg)', lambda: b.getunit(np.array([abig, 30.0]), 'deg'), lambda: np.array([abr, math.pi / 6]), 1e-12, abs(abr))
+        close(f'UQ.Rx({abig},deg)', lambda: UnitQuaternion.Rx(abig, 'deg').vec, lambda: UnitQuaternion.Rx(abr).vec); close(f'UQ.AngVec({abig},deg)', lambda: UnitQuaternion.AngVec(abig, vv, unit='deg').vec, lambda: UnitQuaternion.AngVec(abr, vv).vec)
+        close(f'Twist3.Rx({abig},deg)', lambda: Twist3.Rx([abig], 'deg').S, lambda: Twist3.Rx([abr]).S); close(f'rotx({abig},deg)', lambda: b.rotx(abig, 'deg'), lambda: b.rotx(abr))
+        close(f'Twist3.exp({abig},deg)', lambda: Twist3([0.3, 0.1, 0.7, 0, 0, 1]).exp(abig, units='deg').A, lambda: Twist3([0.3, 0.1, 0.7, 0, 0, 1]).exp(abr).A, 1e-9, abs(abr))
     # the accessors of every class that has them, and the constructors given several triples at once (N x 3, list of triples)
     close('SE3.angvec', lambda: SE3(b.r2t(Ra)).angvec(unit='deg')[0], lambda: SE3(b.r2t(Ra)).angvec()[0] * 180 / math.pi, 1e-9, 180.0)
     close('UQ.angvec', lambda: UnitQuaternion(SO3(Ra)).angvec(unit='deg')[0], lambda: UnitQuaternion(SO3(Ra)).angvec()[0] * 180 / math.pi, 1e-9, 180.0)
